@@ -296,7 +296,10 @@ PROPS["C06"] = dict(PROPS["C01"], lean=["Gengo.Props.C06"],
                "(every node kind, flattening, methods phase, v2 generics, builtin import) and of the loaders: from the empty universe, and "
                "across any incremental loads and hand lookups, every reference stored in an object points to an object with a kind (nothing "
                "unresolved) that is the one registered under its name (or a type parameter), and registered objects carry the name they are "
-               "registered under - hence any two references to objects of the same name are one object. That equal Go types print equal "
+               "registered under - hence any two references to objects of the same name are one object; conversely an object registered "
+               "under two different names was never filled from a Go type (it is a builtins-table object, whose spellings share an object "
+               "on purpose, or a declaration object): two differently printed Go types are always two objects (never_merged_v1/v2, after "
+               "any sequence of loads). That equal Go types print equal "
                "names and different ones different names is go/types' String() (external; F7 is where it fails).")
 PROPS["C20"] = dict(PROPS["C01"], lean=["Gengo.Props.C20"],
     level_text="Kernel-checked on the model of the predicates over universe objects: a type reported assignable consists of builtin "
@@ -328,7 +331,9 @@ PROPS["C11"] = dict(PROPS["C01"], lean=["Gengo.Props.C11"],
                "named type of its scope is registered with a kind, every function, variable and constant is registered in its index as a "
                "DeclarationOf object over the object of its Go type (constants with their values) - and stays so through everything "
                "walked later (declaration objects are never shared between index entries) - and the package's record carries its name "
-               "and direct imports. PARTIAL: receivers are outside the cross-universe statement (a method signature prints "
+               "and direct imports; in v2, where the scan is interleaved with the visits of the imports, the package is complete (types and "
+               "declarations) when addPkgToUniverse returns (requested_package_complete_v2), and a package once complete stays complete "
+               "through everything any loader does afterwards (completeFor_keeps). PARTIAL: receivers are outside the cross-universe statement (a method signature prints "
                "like the plain function type); that the common part contains everything reachable from the packages requested in both "
                "is compared, not proved. v1 Builder: findTypesIn leaves the state untouched for a package that "
                "was not requested, scans exactly the scope of a requested one, fails for a package the type checker does not know; "
